@@ -1,25 +1,40 @@
 #!/bin/bash
-# usage: tools/selftest_seeds.sh [<prop>...]   — must-fail corpus: applies every kept seeded change (/verif/seeded/<id>-<v>/patch.diff) to /repo,
-# runs the property's quick check, undoes the change, and compares "was a VIOLATION reported" with meta.json's recorded `detected`
-# (yes / partial => a violation is expected; no => none). Prints one line per seed; exit 1 if any seed's outcome changed.
-# Run after every engine change: an axiom or encoding mistake that makes proofs vacuous shows up here as detected seeds going quiet.
+# usage: tools/selftest_seeds.sh [-j N] [<prop>...]   — must-fail corpus: every kept seeded change (/verif/seeded/<id>-<v>/patch.diff) is applied to
+# its own scratch worktree of /repo HEAD (under /tmp/selftest_wt, removed afterwards), the property's quick check is run against that
+# worktree (evidence and replays go to a scratch directory, never into /verif), and "was a VIOLATION reported" is compared with
+# meta.json's recorded `detected` (yes / partial => a violation is expected; no => none). One line per seed; exit 1 if any outcome changed.
+# /repo itself is never touched, so it may run beside other work. Run after every engine change: an axiom or encoding mistake
+# that makes proofs vacuous shows up here as detected seeds going quiet.
 cd /verif || exit 2
-if [ -n "$(git -C /repo status --porcelain)" ]; then echo "REFUSING: /repo has uncommitted changes"; exit 4; fi
-sav=$(mktemp -d /tmp/evsave.XXXXXX); cp -a evidence/. "$sav"/ 2>/dev/null
-bad=0
-for d in seeded/*/; do
-  n=$(basename "$d"); p=${n%-*}
-  if [ $# -gt 0 ]; then case " $* " in *" $p "*) ;; *) continue;; esac; fi
+J=4
+if [ "$1" = "-j" ]; then J=$2; shift 2; fi
+export GOFLAGS=-mod=mod GOPROXY=off
+if [ ! -x bin/gowp ] || [ -n "$(find engine -name '*.go' -newer bin/gowp 2>/dev/null | head -1)" ]; then (cd engine && go build -o ../bin/gowp .) || exit 2; fi
+if [ -n "$(git -C /repo status --porcelain)" ]; then echo "NOTE: /repo has uncommitted changes; the corpus runs against HEAD"; fi
+props="$*"
+one() {
+  d=$1; n=$(basename "$d"); p=${n%-*}
   want=$(python3 -c "import json;print(json.load(open('$d/meta.json'))['checked_against_verif']['detected'])")
   p=$(python3 -c "import json;print(json.load(open('$d/meta.json')).get('checked_by_property_check','$p'))")
-  if ! git -C /repo apply --check "/verif/$d/patch.diff" 2>/dev/null; then echo "$n: PATCH DOES NOT APPLY"; bad=1; continue; fi
-  git -C /repo apply "/verif/$d/patch.diff"
-  out=$(./check $p quick 2>&1); v=$(echo "$out" | grep -c "^VIOLATION")
-  git -C /repo checkout -- .
+  wt=/tmp/selftest_wt/$n; out=/tmp/selftest_out/$n
+  rm -rf "$wt" "$out"; mkdir -p /tmp/selftest_wt "$out"
+  git -C /repo worktree add --detach "$wt" HEAD >/dev/null 2>&1 || { echo "$n: CANNOT MAKE WORKTREE"; return 1; }
+  if ! git -C "$wt" apply "/verif/$d/patch.diff" 2>/dev/null; then echo "$n: PATCH DOES NOT APPLY"; git -C /repo worktree remove --force "$wt" >/dev/null 2>&1; return 1; fi
+  res=$(bin/gowp check -prop "$p" -tier quick -repo "$wt" -verif /verif -out "$out" 2>&1); v=$(echo "$res" | grep -c "^VIOLATION")
+  git -C /repo worktree remove --force "$wt" >/dev/null 2>&1; rm -rf "$wt" "$out"
   got=no; [ "$v" -gt 0 ] && got=yes
   exp=yes; case "$want" in no*) exp=no;; esac
-  first=$(echo "$out" | grep -m1 "^  obligation" | cut -c1-140)
-  if [ "$got" = "$exp" ]; then echo "$n: ok (recorded=$want, violations=$v) $first"; else echo "$n: CHANGED (recorded=$want, now violations=$v) $first"; bad=1; fi
+  first=$(echo "$res" | grep -m1 "^  obligation" | cut -c1-140)
+  if [ "$got" = "$exp" ]; then echo "$n: ok (recorded=$want, violations=$v) $first"; else echo "$n: CHANGED (recorded=$want, now violations=$v) $first"; return 1; fi
+}
+export -f one
+list=""
+for d in seeded/*/; do
+  n=$(basename "$d"); p=${n%-*}
+  if [ -n "$props" ]; then case " $props " in *" $p "*) ;; *) continue;; esac; fi
+  list="$list ${d%/}"
 done
-rm -rf evidence; mkdir -p evidence; cp -a "$sav"/. evidence/; rm -rf "$sav"
-exit $bad
+echo $list | tr ' ' '\n' | xargs -P "$J" -I{} bash -c 'one {}' | tee /tmp/selftest_last.log
+git -C /repo worktree prune
+if grep -q "CHANGED\|DOES NOT APPLY\|CANNOT" /tmp/selftest_last.log; then exit 1; fi
+exit 0
